@@ -17,12 +17,15 @@ CHECKS = {
                   'executed symbolically with every name an unconstrained string; one z3 query per symbol variant and path shows result = reference written from the property '
                   '(package.Name = key, Owner::member, dotted names, stored identifiers). Counterexamples are replayed on a four-file project through the public API.',
              note='Trusted: nightly MIR = what stable compiles; format_args! template decoding (self-checked); Display of String is identity. Not decided: that the resolver stores the right key in type references (C05).'),
- 'C11': dict(engine='M (nightly MIR -> z3 integers; CFG path enumeration) + native replay', technique='symbolic execution of the real MIR, z3 over unbounded integers',
+ 'C11': dict(engine='M (nightly MIR -> z3 integers; CFG path enumeration; z3 over iteration orders) + T (self-composition under independent hash orders, z3 strings) + native replay',
+             technique='symbolic execution of the real MIR; z3 over unbounded integers, over pairs of iteration orders, and over pairs of paths of a self-composition',
              design='4/C11', category='model_checking',
-             text='Partial: z3 decides over unbounded positions that the key of the final sort in validate refines (line, column) order, so diagnostics at distinct start positions '
-                  'leave validate in ascending order for every hash-map iteration order; every CFG path of the per-file closure that runs a validation step is shown to sort afterwards '
-                  'and not to touch the vector again. Equality of trees/diagnostic sets across runs is outside the claim (needs HashMap under the solver).',
-             note='Trusted: slice::sort_by_key is a stable sort; offsets and (line, column) are co-monotone if the key uses offsets.'),
+             text='ORDER: z3 decides over unbounded positions that the key of the final sort in validate refines (line, column) order; every CFG path of the per-file closure sorts last; an unstable sort is a violation. '
+                  'HASH ORDER: (a) the key -> kind map collected from the stored files is compared across every pair of iteration orders of 2 and 3 files (z3); (b) resolve_type and check_declared_parcelables are '
+                  'executed twice on the same symbolic inputs with independent hash orders and z3 refutes every pair of paths with different outcomes; (c) diagnostics pushed in hash order have pairwise distinct '
+                  'statement ranges on every path; (d) results are collected keyed by the id each file came with. With C12 and C13 this covers repeated calls, new parsers, insertion orders and seeds. '
+                  'One known finding: two files registering one key with different kinds.',
+             note='Trusted: slice::sort_by_key is a stable sort; String: Ord is a total order (abstracted to an injective rank); offsets and (line, column) are co-monotone if the key uses offsets.'),
  'C14': dict(engine='P (real LALR tables + validated driver model, path-forking symbolic execution; z3/CYK for error-free boxes) + native replay',
              technique='symbolic execution of the table-driven parser with error recovery; z3 (QF_BV CYK) on error-free path boxes',
              design='4/C14', category='model_checking',
